@@ -410,8 +410,29 @@ def main():
     sl += ["]", "", "end OomdModel.Generated", ""]
     write_if_changed(os.path.join(a.out, "Schemas.lean"), "\n".join(sl))
     emit_arg_schemas(a.repo, a.out, report)  # C12
+    emit_accessors(a.repo, a.out, report)    # C10 / C15
     report["plugins"] = len(sch)
     print(json.dumps(report, sort_keys=True))
+
+
+def emit_accessors(repo, out, report):
+    """C10: the statistics CgroupContext offers - every PROXY / PROXY_CONST_REF field and every hand-written
+    `std::optional<...> CgroupContext::name(Error*...) const` - so that an accessor added to the code without a row in the
+    crash-point model's table (OomdModel.CtxFault.Acc) breaks a proof obligation (C10.every_accessor_modelled)."""
+    src = strip_comments(read(repo, "src/oomd/CgroupContext.cpp"))
+    fields = re.findall(r"^\s*PROXY(?:_CONST_REF)?\(\s*(\w+)\s*,", src, re.M)
+    hand = re.findall(r"^std::optional<[^>]+>\s+CgroupContext::(\w+)\(\s*Error\*", src, re.M)
+    hand = [h for h in hand if not h.startswith("get")]
+    names = list(dict.fromkeys(fields + hand))
+    lines = ["/-! GENERATED by tools/extract.py (C10): the accessors of CgroupContext (PROXY fields and hand-written optional-returning",
+             "members of src/oomd/CgroupContext.cpp), in source order. Do not edit. -/",
+             "namespace OomdModel.Generated", "",
+             "def cgroupContextAccessors : List String := [" + ", ".join(lean_str(n) for n in names) + "]", "",
+             "end OomdModel.Generated", ""]
+    write_if_changed(os.path.join(out, "Accessors.lean"), "\n".join(lines))
+    report["accessors"] = len(names)
+    if not names:
+        report["missing"].append("cgroupContextAccessors")
 
 
 def write_if_changed(path, content):
